@@ -488,19 +488,21 @@ func (hs *clientHandshakeState) doFullHandshake() error {
 
 	keyAgreement := hs.suite.ka(c.vers)
 
-	// ServerKeyExchange（可选）
+	// ServerKeyExchange（必选：服务端以此证明持有签名私钥，GB/T 38636-2020 6.4.5.4）
 	skx, ok := msg.(*serverKeyExchangeMsg)
-	if ok {
-		err = keyAgreement.processServerKeyExchange(hs, skx)
-		if err != nil {
-			_ = c.sendAlert(alertUnexpectedMessage)
-			return err
-		}
+	if !ok {
+		_ = c.sendAlert(alertUnexpectedMessage)
+		return unexpectedMessageError(skx, msg)
+	}
+	err = keyAgreement.processServerKeyExchange(hs, skx)
+	if err != nil {
+		_ = c.sendAlert(alertUnexpectedMessage)
+		return err
+	}
 
-		msg, err = c.readHandshake(&hs.finishedHash)
-		if err != nil {
-			return err
-		}
+	msg, err = c.readHandshake(&hs.finishedHash)
+	if err != nil {
+		return err
 	}
 
 	// CertificateRequest（可选）
